@@ -1,4 +1,6 @@
 import CrdtModel.Audit.Tool
+import CrdtModel.Props.Addenda
+import CrdtModel.Witness.NestedMore
 import CrdtModel.Props.C06
 import CrdtModel.Witness.MVRegEqPanic
 import CrdtModel.Witness.MVRegMalformed
